@@ -860,6 +860,29 @@ def main(ctx, replay):
     except (OSError, ValueError, KeyError) as e:
         ctx.notes.append("wire scenarios skipped: %r" % (e,))
     tick("wire")
+    # ---- what the real PushDispatcher.Start asks the store for: every route's Dequeue must request routeDequeueBatch messages under a
+    #      lease of routeLeaseTTL(targets, slack, that batch) - the two functions whose arithmetic is compared with the model above
+    try:
+        rts = [{"timeouts_ns": [rng.choice([1, 5, 10, 45, 60, 120]) * 10**9 for _ in range(rng.choice([1, 1, 2, 3]))], "concurrency": rng.choice([0, 1, 2, 3, 4, 8, 16])}
+               for _ in range(10)]
+        rts += [{"timeouts_ns": [60 * 10**9, 60 * 10**9], "concurrency": 2}, {"timeouts_ns": [45 * 10**9, 10**9, 10**9], "concurrency": 8}]
+        for slack in (0, 5 * 10**9):
+            rc, out, err = C.harness_run(H, ["dispatch-start"], {"slack_ns": slack, "routes": rts}, timeout=120)
+            if rc != 0:
+                ctx.notes.append("dispatch-start not available: " + err[-300:])
+                break
+            o = json.loads(out)
+            for r, seen, want in zip(rts, o["seen"], o["by_functions"]):
+                evaluations += 1
+                nontrivial.add(("start", tuple(r["timeouts_ns"]), r["concurrency"], slack))
+                if seen != [want]:
+                    C.report(ctx, "dispatcher-start-lease-ttl:%s" % ("multi-target" if len(r["timeouts_ns"]) > 1 else "single-target"),
+                             "PushDispatcher.Start dequeues with (batch, lease TTL) %s; routeDequeueBatch / routeLeaseTTL give %s for this route: "
+                             "messages leased together are not covered for the whole micro-batch" % (seen, want),
+                             {"kind": "request", "case": {"route": r, "lease_slack_ns": slack}, "observed": seen, "expected": want})
+    except (OSError, ValueError, KeyError) as e:
+        ctx.notes.append("dispatcher start scenarios skipped: %r" % (e,))
+    tick("start")
     dist["timing_s"] = timing
     model_evaluated = all(x is not None for x in (mres, fres, qres, cres, m_ttl, m_bat))
     cov.update({
